@@ -26,18 +26,34 @@ type FS = filesystem.Filespace
 const (
 	longWait  = 20 * time.Second       // for what the model says must happen
 	shortWait = 120 * time.Millisecond // to confirm "blocked" (a blocked goroutine never arrives)
-	// once this process has reported a hang (the property is already violated on that scenario) later waits
-	// for "what must happen" ask the runtime after hangWatchdog instead of longWait; the verdict still comes
-	// from the runtime (the goroutine is parked on a sync lock), never from the elapsed time alone
-	hangWatchdog = 1500 * time.Millisecond
-	hangConfirm  = 250 * time.Millisecond // second reading of the goroutine's state
-	hardLimit    = 120 * time.Second      // a goroutine that neither arrives nor parks on a lock (spinning)
+	// once this process has had ONE long wait expire - for whatever reason: a goroutine parked on a lock, a
+	// goroutine that neither arrives nor parks, a tree walk that does not return - the property is already
+	// violated on that scenario, and every later wait for "what must happen" uses the short figures, so that a
+	// tree on which many scenarios go wrong is reported in bounded time.  On a tree where every awaited event
+	// arrives nothing changes.  The verdict `hang` on a lock still comes from the runtime, not from the clock.
+	hangWatchdog = 1500 * time.Millisecond // patience before the runtime is asked, after the first expiry
+	hangConfirm  = 250 * time.Millisecond  // second reading of the goroutine's state
+	hardLimit    = 120 * time.Second       // a goroutine that neither arrives nor parks on a lock: first time
+	hardShort    = 5 * time.Second         // … after the first expiry
+	hardDead     = 2 * time.Second         // … inside a scenario that is already dead
 )
 
-// hangsSeen counts the waits of this process that ended in `hang`.  The first one is waited for generously
-// (longWait, then the runtime is asked); afterwards the short watchdog is used so that a tree on which many
-// scenarios hang is reported in bounded time.  On a tree where nothing hangs nothing changes.
-var hangsSeen int32
+// slowSeen counts the long waits of this process that expired (see above).
+var slowSeen int32
+
+func expired() { atomic.AddInt32(&slowSeen, 1) }
+
+// patience returns how long something the model says must happen is waited for before the runtime is asked
+// (soft), and how long at most when the runtime does not show a goroutine parked on a lock (hard).
+func (sc *scenario) patience() (soft, hard time.Duration) {
+	switch {
+	case sc != nil && sc.dead:
+		return shortWait, hardDead
+	case atomic.LoadInt32(&slowSeen) > 0:
+		return hangWatchdog, hardShort
+	}
+	return longWait, hardLimit
+}
 
 type event struct{ kind, arg string }
 
@@ -263,13 +279,20 @@ func (t *thr) parkedOnLock() bool {
 //
 // blockedExpected (the model says the thread cannot move): a short wait; a blocked goroutine never arrives.
 //
-// Otherwise the model says the thread proceeds.  `hang` is a statement about the goroutine, read from the
-// runtime: after a generous wait (longWait; hangWatchdog once this process has already reported a hang;
-// shortWait inside a scenario that is already dead) the goroutine's state is taken from a stop-the-world
-// stack snapshot, and only "parked on a sync lock" - twice, hangConfirm apart, with no event in between -
-// is a hang.  In a gated replay every other goroutine of the scenario sits at a gate, is finished or is
-// itself blocked, so nobody will release that lock.  A goroutine that is running, runnable or in anything
-// else is waited for further (up to hardLimit, then it is reported as `hang` too: it never returned).
+// Otherwise the model says the thread proceeds.
+//
+//	stalled  the driver has not resumed the thread since its last event (it sits at a gate or between two
+//	         operations, waiting for the driver) and no event is queued: nothing can arrive, whatever the
+//	         time - the implementation reached that gate EARLIER than the model (where the model had it
+//	         blocked) or the model expects a step the implementation does not have.  Decided from the
+//	         driver's own bookkeeping, without waiting.
+//	hang     a statement about the goroutine, read from the runtime: after a generous wait (patience: longWait;
+//	         hangWatchdog once a long wait of this process has expired; shortWait inside a dead scenario) the
+//	         goroutine's state is taken from a stop-the-world stack snapshot, and "parked on a sync lock" -
+//	         twice, hangConfirm apart, with no event in between - is a hang.  In a gated replay every other
+//	         goroutine of the scenario sits at a gate, is finished or is itself blocked, so nobody will
+//	         release that lock.  A goroutine that is running, runnable or in anything else is waited for
+//	         further, up to the hard limit of patience(), then it is reported as `hang` too (it never returned).
 func (t *thr) await(blockedExpected bool) string {
 	if blockedExpected {
 		select {
@@ -279,14 +302,17 @@ func (t *thr) await(blockedExpected bool) string {
 			return "blocked"
 		}
 	}
-	wait := longWait
-	switch {
-	case t.hung:
+	if t.state != "running" {
+		select {
+		case e := <-t.ev:
+			return t.take(e)
+		default:
+			return "stalled"
+		}
+	}
+	wait, hard := t.sc.patience()
+	if t.hung {
 		wait = 0
-	case t.sc.dead:
-		wait = shortWait
-	case atomic.LoadInt32(&hangsSeen) > 0:
-		wait = hangWatchdog
 	}
 	start := time.Now()
 	for {
@@ -309,15 +335,17 @@ func (t *thr) await(blockedExpected bool) string {
 				break
 			}
 		}
-		if time.Since(start) >= hardLimit {
+		if time.Since(start) >= hard {
 			break
 		}
 		wait = time.Second
-		continue
+		if hard < 10*time.Second {
+			wait = 250 * time.Millisecond
+		}
 	}
 	t.hung = true
 	t.sc.dead = true
-	atomic.AddInt32(&hangsSeen, 1)
+	expired()
 	return "hang"
 }
 
@@ -387,10 +415,12 @@ func dumpTree(fs FS, locked map[string]bool) string {
 		sort.Strings(items)
 		done <- "tree " + strings.Join(items, " ")
 	}()
+	soft, _ := (*scenario)(nil).patience()
 	select {
 	case s := <-done:
 		return s
-	case <-time.After(longWait):
+	case <-time.After(soft):
+		expired()
 		return "tree hang"
 	}
 }
